@@ -48,6 +48,8 @@ fn excluded(flag: bool, name: &str) -> bool {
 const POOL: &[&str] = &[
     "a.txt", "b.txt", "sub/c.txt", "sub/deep/d.txt", "new.txt", "sub/new2.txt", "newdir/n.txt",
     "sp ace.txt", "\u{fc}n\u{ef}/\u{e9}.txt", "dir.d/x.md", "Makefile",
+    // bytes that are ordinary in a Linux file name but special somewhere else
+    "notes\\todo.txt", "sub/back\\slash.txt", "-dash.txt", "a..b/c.txt", "..hidden.txt", "we:ird.txt", "quo\"te.txt",
 ];
 
 #[derive(Debug, Clone, Serialize, Deserialize)]
